@@ -47,12 +47,27 @@ def mc_cfg(ctx, name, machines, depth, export=0, layout="Layout <- DocLayout", b
     return p
 
 
-def action_coverage(out):
-    """TLC -coverage: '<M_set_base line 57, col 1 to line 57, col 90 of module OperandMC>: 12:345' -> {action: generated}"""
-    cov = {}
-    for m in re.finditer(r"^<(\w+) line \d+, col \d+ to line \d+, col \d+ of module OperandMC>: (\d+):(\d+)", out, re.M):
-        cov[m.group(1)] = max(cov.get(m.group(1), 0), int(m.group(3)))
-    return cov
+FAMILY = {"M": ("x86mem", "a64mem", "basemem"), "R": ("x86reg", "a64reg"), "I": ("imm",), "L": ("label",), "G": ("reglist",), "O": ("regonly",), "E": ("env",)}
+
+
+def action_coverage(scripts):
+    """TLC's `-coverage` instrumentation runs out of memory on this spec, so coverage is measured on TLC's own behaviours:
+    action X_<call> is taken iff an exported behaviour of a machine of family X contains the call."""
+    seen = set()
+    for sc in scripts:
+        for ev in sc["ops"]:
+            seen.add((sc["m"], ev["e"]))
+    missing = []
+    for a in spec_actions():
+        fam, call = a[0], a[2:]
+        machines = FAMILY[fam]
+        if a == "M_make_x86":
+            machines, call = ("x86mem",), "make"
+        elif a == "M_make_a64":
+            machines, call = ("a64mem",), "make"
+        if not any((m, call) in seen for m in machines):
+            missing.append(a)
+    return len(spec_actions()) - len(missing), missing
 
 
 def spec_actions():
@@ -65,25 +80,20 @@ def design(ctx):
     q = ctx.quick
     depth = 2 if q else 3
     groups = [["x86mem"], ["a64mem", "basemem"], ["x86reg", "a64reg"], ["imm", "label", "reglist", "regonly", "env"]]
-    cov = {}
-    total = 0
+    total = gen = 0
 
     def one(g):
         cfg = mc_cfg(ctx, "mc_" + g[0], g, depth)
-        r = vlib.run_tlc(ctx, MC, cfg, workers=4, timeout=1500, heap="4g", tag="mc_" + g[0], coverage=True)
+        r = vlib.run_tlc(ctx, MC, cfg, workers=4, timeout=1500, heap="4g", tag="mc_" + g[0])
         return g, r
     with concurrent.futures.ThreadPoolExecutor(max_workers=4) as ex:
         for g, r in ex.map(one, groups):
             vlib.tlc_must_ok(ctx, r, f"OperandMC {g} (TypeInv/Lossless/DocInv/Frame/RoundTrip)")
             total += r.distinct
-            for a, n in action_coverage(r.out).items():
-                cov[a] = cov.get(a, 0) + n
-    missing = [a for a in spec_actions() if cov.get(a, 0) == 0]
-    if missing:
-        raise Broken(f"OperandMC: actions never taken (coverage): {missing}")
-    ctx.log(f"design: {total} distinct abstract operand states (histories up to {depth} calls), {len(cov)} actions all taken")
+            gen += r.generated
+    ctx.log(f"design: {total} distinct abstract operand states, {gen} transitions checked (BFS levels <= {depth})")
     ctx.extra["design_states"] = total
-    ctx.extra["design_actions_taken"] = len(cov)
+    ctx.extra["design_transitions"] = gen
     # negative controls: the invariants are not vacuous
     neg = {}
     for name, over, expect in NEG_CONTROLS:
@@ -99,29 +109,46 @@ def design(ctx):
 def export_behaviours(ctx):
     """TLC simulates the contract; every behaviour becomes a script for the real classes."""
     q = ctx.quick
-    depth = 10 if q else 16
-    nsim = 40 if q else 400
+    depth = 12 if q else 20
+    cap = 60 if q else 600           # behaviours kept per machine
+    groups = [["x86mem", "a64mem", "basemem"], ["x86reg", "a64reg"], ["imm", "label", "reglist", "regonly", "env"]]
     scripts = []
 
-    def one(m):
-        cfg = mc_cfg(ctx, "sim_" + m, [m], 1000, export=depth, check=False)
-        r = vlib.run_tlc(ctx, MC, cfg, workers=1, timeout=900, heap="2g", tag="sim_" + m, simulate=nsim, depth=depth + 1, seed=ctx.seed + 17)
-        return m, r
-    with concurrent.futures.ThreadPoolExecutor(max_workers=5) as ex:
-        for m, r in ex.map(one, MACHINES):
+    def one(g):
+        cfg = mc_cfg(ctx, "sim_" + g[0], g, 1000, export=depth, check=False)
+        r = vlib.run_tlc(ctx, MC, cfg, workers=1, timeout=900, heap="2g", tag="sim_" + g[0], simulate=(1500 if q else 8000) * len(g), depth=depth + 1, seed=ctx.seed + 17)
+        return g, r
+    allb = []
+    with concurrent.futures.ThreadPoolExecutor(max_workers=3) as ex:
+        for g, r in ex.map(one, groups):
             if r.kind != "ok":
-                raise Broken(f"behaviour export for {m} failed: kind={r.kind}\n" + r.out[-1200:])
+                raise Broken(f"behaviour export for {g} failed: kind={r.kind}\n" + r.out[-1200:])
             for mm in re.finditer(r'^<<"BEH", "(\w+)", (".*")>>$', r.out, re.M):
-                ops = json.loads(json.loads(mm.group(2)))
-                scripts.append({"m": mm.group(1), "ops": ops})
-    uniq = {json.dumps(s, sort_keys=True) for s in scripts}
-    scripts = [json.loads(s) for s in sorted(uniq)]
-    if len(scripts) < len(MACHINES):
-        raise Broken(f"behaviour export produced only {len(scripts)} behaviours")
+                allb.append({"m": mm.group(1), "ops": json.loads(json.loads(mm.group(2)))})
+    uniq = {json.dumps(s, sort_keys=True) for s in allb}
+    allb = [json.loads(s) for s in sorted(uniq)]
+    ntaken, missing = action_coverage(allb)
+    if missing:
+        raise Broken(f"OperandMC: actions never taken in {len(allb)} simulated behaviours: {missing}")
+    # replay a subset: first one behaviour per (machine, call), then up to `cap` per machine
+    scripts, per, have = [], collections.Counter(), set()
+    for sc in allb:
+        new = {(sc["m"], ev["e"]) for ev in sc["ops"]} - have
+        if new:
+            have |= new
+            scripts.append(sc)
+            per[sc["m"]] += 1
+    chosen = {json.dumps(s, sort_keys=True) for s in scripts}
+    for sc in allb:
+        if per[sc["m"]] < cap and json.dumps(sc, sort_keys=True) not in chosen:
+            scripts.append(sc)
+            per[sc["m"]] += 1
+    ctx.extra["model_behaviours_generated"] = len(allb)
     sp = ctx.path("scripts.ndjson")
     vlib.write_ndjson(sp, scripts)
-    ctx.log(f"{len(scripts)} distinct model behaviours (depth {depth}) exported for replay on the real classes")
+    ctx.log(f"{len(scripts)} distinct model behaviours (depth {depth}) exported for replay on the real classes; all {ntaken} spec actions taken")
     ctx.extra["model_behaviours_replayed"] = len(scripts)
+    ctx.extra["spec_actions_taken"] = ntaken
     return sp
 
 
@@ -146,7 +173,11 @@ def classify_trace_rejection(ctx, x):
     if mm:
         fields = sorted(re.findall(r'"(\w+)"', mm.group(1)))
     if bad.get("e") == "ABORT":
-        return f"{mach}:abort", f"traced binary aborted: {bad.get('why', '')}", bad
+        why = bad.get("why", "")
+        m2 = re.search(r"([\w.]+\.(?:h|cpp)):\d+:\d+: runtime error: ([a-z ]+?)(?::| \d| of|$)", why)
+        key = f"ub:{m2.group(1)}:{m2.group(2).strip().replace(' ', '-')}" if m2 else f"{mach}:abort"
+        prev = recs[idx - 1] if idx > 0 else {}
+        return key, f"traced binary aborted ({why}) in the call after {describe_event(prev)}", bad
     key = f"{mach}:{bad.get('e')}:{'+'.join(fields) if fields else 'rejected'}"
     return key, f"after {describe_event(bad)} the getters {fields} of the real object differ from the contract", bad
 
@@ -268,11 +299,18 @@ def run(ctx):
     # 2./3. executions of the real classes
     env = {"VERIF_SEED": ctx.seed}
     sp = export_behaviours(ctx)
-    tr_s = ctx.path("trace_scripts.ndjson")
-    vlib.record_trace(ctx, basan, "opmodel", ["script", sp, tr_s], tr_s, timeout=600, env=env)
+    tr_s = ctx.path("trace_scripts.ndjson")          # model behaviours use boundary offsets whose sum wraps: plain build (see ub probe below)
+    vlib.record_trace(ctx, bplain, "opmodel", ["script", sp, tr_s], tr_s, timeout=600, env=env)
     tr_r = ctx.path("trace_random.ndjson")
-    nexec, steps = (120, 40) if q else (1500, 80)
-    vlib.record_trace(ctx, basan, "opmodel", ["record", tr_r, nexec, steps], tr_r, timeout=900, env=env)
+    nexec, steps = (100, 40) if q else (1200, 80)
+    vlib.record_trace(ctx, bplain, "opmodel", ["record", tr_r, nexec, steps], tr_r, timeout=900, env=env)
+    tr_a = ctx.path("trace_random_asan.ndjson")      # sanitizer environment; 64-bit offset additions kept inside int64 (X04_SAFE)
+    vlib.record_trace(ctx, basan, "opmodel", ["record", tr_a, nexec // 2, steps], tr_a, timeout=900, env=dict(env, X04_SAFE=1, VERIF_SEED=ctx.seed + 1))
+    # probe: the wrap-around of a 64-bit absolute address (defined by the contract as modulo 2^64) under UBSan
+    pr_s, tr_p = ctx.path("ub_probe.ndjson"), ctx.path("trace_ub_probe.ndjson")
+    vlib.write_ndjson(pr_s, [{"m": "basemem", "ops": [{"e": "set_offset", "v": [0, 0, 0, 32768]}, {"e": "add_offset", "v": [65535, 65535, 65535, 65535]}]},
+                             {"m": "x86mem", "ops": [{"e": "set_offset", "v": [65535, 65535, 65535, 32767]}, {"e": "clone_adjusted", "v": [1, 0, 0, 0]}]}])
+    vlib.record_trace(ctx, basan, "opmodel", ["script", pr_s, tr_p], tr_p, timeout=120, env=env)
 
     # 4. tables and pointwise observations
     tb = ctx.path("tables.ndjson")
@@ -291,7 +329,7 @@ def run(ctx):
 
     res = {}
     th_obs = bg("obs", lambda: res.__setitem__("rej", tlc_pointwise(ctx, lines, "obs", 8 if q else 16)))
-    nev = validate_traces(ctx, tr_s, "scripts") + validate_traces(ctx, tr_r, "random")
+    nev = validate_traces(ctx, tr_s, "scripts") + validate_traces(ctx, tr_r, "random") + validate_traces(ctx, tr_a, "asan") + validate_traces(ctx, tr_p, "ubprobe")
     th_obs.join()
     th_design.join()
     for name in ("design", "obs"):
